@@ -137,3 +137,23 @@ contract('parso.python.tokenize.tokenize_lines.dedent_if_necessary', kind='gener
                         decreases='len(indents)', lists_modified=['indents'])},
          globals_={'DEDENT': 'ref:PythonTokenTypes', 'ERROR_DEDENT': 'ref:PythonTokenTypes'},
          lists=['indents'], props=['C09'])
+
+
+# ---- FStringNode bookkeeping (C09): bracket depth and format-spec depth of one open f-string
+FSN = 'ref:FStringNode'
+contract('parso.python.tokenize.FStringNode.__init__', params={'self': FSN, 'quote': 'str'},
+         ensures=['self.quote == quote', 'self.parentheses_count == 0', 'self.format_spec_count == 0',
+                  'self.previous_lines == ""'],
+         modifies=['self.quote', 'self.parentheses_count', 'self.previous_lines', 'self.last_string_start_pos',
+                   'self.format_spec_count'], props=['C09'])
+contract('parso.python.tokenize.FStringNode.open_parentheses', params={'self': FSN, 'character': 'str'},
+         ensures=['self.parentheses_count == old(self.parentheses_count) + 1',
+                  'self.format_spec_count == old(self.format_spec_count)'],
+         modifies=['self.parentheses_count'], props=['C09'])
+contract('parso.python.tokenize.FStringNode.close_parentheses', params={'self': FSN, 'character': 'str'},
+         ensures=['self.parentheses_count == old(self.parentheses_count) - 1',
+                  'implies(self.parentheses_count == 0, self.format_spec_count == 0)',
+                  'implies(self.parentheses_count != 0, self.format_spec_count == old(self.format_spec_count))'],
+         modifies=['self.parentheses_count', 'self.format_spec_count'], props=['C09'])
+contract('parso.python.tokenize.FStringNode.is_in_expr', params={'self': FSN}, returns='bool',
+         ensures=['result == (self.parentheses_count > self.format_spec_count)'], props=['C09'])
